@@ -14,6 +14,7 @@ from asphalt.core import Component, add_resource, add_resource_factory
 TABLE: dict[int, dict[str, Any]] = {}
 LOG: list[dict[str, Any]] = []       # constructor calls in order
 INSTANCES: list[Any] = []
+GENERATION = 0                       # KD0..KD7 are rebound to fresh subclasses of K0..K7 for every case
 
 
 class NotAComponent:
@@ -27,7 +28,7 @@ class _Base(Component):
         spec = TABLE.get(self.n, {})
         self.idx = len(LOG)
         self.marker = type(f"M{self.idx}", (), {})
-        LOG.append({"cls": self.n, "kwargs": kwargs})
+        LOG.append({"cls": self.n, "kwargs": kwargs, "gen": getattr(type(self), "gen", None)})
         INSTANCES.append(self)
         if spec.get("fails"):
             raise ValueError("constructor failure requested by the case")
